@@ -577,14 +577,14 @@ fn c06_query_at_cut() {
     kani::cover!(s.d == 2 && !f.has[DZ][w.ti], "empty non-terminal: no records");
 }
 
-// @harness props=C06 tier=thorough mem=8 t=3400 fn="HashMapTreeZone::lookup,lookup_addrs,lookup_all,lookup_base,lookup_impl,RrsetList::lookup"
-//   bound="same zone, *.z. present with content in {A, CNAME, TXT} symbolic, rest fixed; query k.z. (no such node: closest encloser is the apex); all three lookups; flags and type symbolic; unwind 8"
+// @harness props=C06 tier=thorough mem=8 t=3400 fn="HashMapTreeZone::lookup,lookup_base,lookup_impl,RrsetList::lookup"
+//   bound="same zone, *.z. present with content in {A, CNAME, TXT} symbolic, rest fixed; query k.z. (no such node: closest encloser is the apex); single-type lookup (with all three lookups the harness ran out of 20 GB); flags and type symbolic; unwind 8"
 //   sym="1 content selector (3 zones), 2 option flags, type selector" stubs="eq_ignore_ascii_case" cbmc="--max-field-sensitivity-array-size 1024" kani="--no-assertion-reach-checks"
 #[kani::proof]
 #[kani::unwind(8)]
 #[kani::stub(<[u8]>::eq_ignore_ascii_case, eq_ic_model)]
 fn c06_query_wildcard_at_apex() {
-    let (s, _f, w) = run_query(&[1, b'k', 1, b'z', 0], ALL, true, SYM_W, FIXED);
+    let (s, _f, w) = run_query(&[1, b'k', 1, b'z', 0], ONLY_LOOKUP, true, SYM_W, FIXED);
     kani::cover!(s.w == 2 && w.ti == T_A && w.want == Want::Node { data: WZ, synth: true }, "CNAME synthesized from the wildcard");
     kani::cover!(s.w == 3 && w.ti == T_TXT, "TXT synthesized from the wildcard");
     kani::cover!(s.w == 1 && w.ti == T_TXT, "wildcard without the type: no records, with source of synthesis");
